@@ -372,6 +372,16 @@ VALUE_MISMATCH = [
 ]
 INVALID += [(n, _values(text), rx) for n, text, rx in VALUE_MISMATCH]
 
+# invalid programs validation is known to accept (known_findings.json; the signature is given to ctx.violation so that
+# exactly this is reported as KNOWN-FINDING): constants defined in terms of each other in a circle -- every reference
+# names a constant of the right kind, the generators write the references out (Go: initialization cycle)
+KNOWN_ACCEPTED = {
+    "const_ref_cycle": {"class": "invalid_accepted", "kind": "const_ref_cycle"},
+}
+INVALID += [
+    ("const_ref_cycle", _append("const i32 zqca = zqcb\nconst i32 zqcb = zqcc\nconst i32 zqcc = zqca"), r"[Cc]ircular"),
+]
+
 
 def reachable(files, main):
     """files reachable from main through include statements (textual scan; the generators write one
@@ -602,7 +612,8 @@ def run(ctx, quick):
         elif exp not in (None, "ANY"):
             if ok:
                 viol += 1
-                ctx.violation("C11 oracle: invalid input (%s) accepted by validation" % c["mutation"], rep)
+                ctx.violation("C11 oracle: invalid input (%s) accepted by validation" % c["mutation"], rep,
+                              signature=KNOWN_ACCEPTED.get(c["mutation"]))
             elif not re.search(exp, err):
                 viol += 1
                 ctx.violation("C11 oracle: %s rejected with an unexpected diagnostic: %s" % (c["mutation"], err[:300]), rep)
